@@ -268,6 +268,14 @@ func runKflEval(p sx.Sx) sx.Sx {
 	if perr == nil {
 		rec = deepCanon(parsed)
 	}
+	// C18: the prepared query meets other records in between (an empty one, a list, the same record with
+	// its keys in lower case) - what it says about THIS record afterwards must not depend on that history
+	for _, other := range []string{"{}", "[]", strings.ToLower(record), "{\"H\":{}}"} {
+		func() {
+			defer func() { _ = recover() }()
+			_, _, _ = kfl.Eval(expr, other)
+		}()
+	}
 	// C18: the same prepared query again, on the same record
 	truth2, newJson2, _ := kfl.Eval(expr, record)
 	sameRec := false
@@ -342,7 +350,8 @@ var kflStrings = []string{"", "hello", "x", "y", "12", "5", "1.5", "true", "null
 var kflNumRe = regexp.MustCompile(`[0-9]+(\.[0-9]+)?`)
 
 var kflRegexes = []string{"h.*", "hel+o", "^he", "lo$", "x?y", ".*", "^hello$", "a.c", "z+"}
-var kflPaths = []string{"a", "b", "c", "d", "d.e", "d.n", "f", "s", "n", "t", "big", "neg", "arr", "zz", "d.zz", "c.*", "arr.*.x", "a.b.c", "d..e", "u.v.w"}
+var kflPaths = []string{"a", "b", "c", "d", "d.e", "d.n", "f", "s", "n", "t", "big", "neg", "arr", "zz", "d.zz", "c.*", "arr.*.x", "a.b.c", "d..e", "u.v.w",
+	"H.ContentType", "H.XId", "Hdr.Missing"}
 
 func (g *kgen) pick(xs []string) string { return xs[g.r.Intn(len(xs))] }
 
@@ -381,6 +390,10 @@ func (g *kgen) pathRef() node {
 		i := g.r.Intn(4)
 		return callNode("c", sx.A("noparams"), sx.L(sx.A("sel"), sx.N(i), sx.A("-"), sx.A("-"), sx.A("-")), fmt.Sprintf("c[%d]", i))
 	case 1: // key
+		if g.r.Chance(30) { // keys with upper-case letters and a dash, as HTTP header names are spelled
+			k := g.pick([]string{"Content-Type", "X-Id", "content-type", "Missing-Key"})
+			return callNode("H", sx.A("noparams"), sx.L(sx.A("sel"), sx.A("-"), sx.S(k), sx.A("-"), sx.A("-")), fmt.Sprintf("H[\"%s\"]", k))
+		}
 		k := g.pick([]string{"e", "n", "zz"})
 		return callNode("d", sx.A("noparams"), sx.L(sx.A("sel"), sx.A("-"), sx.S(k), sx.A("-"), sx.A("-")), fmt.Sprintf("d[\"%s\"]", k))
 	case 2: // index then continuation: arr[i].x <rest is added by the caller as part of the select expression>
@@ -618,6 +631,7 @@ func (g *kgen) record() sx.Sx {
 	add("arr", sArr(sObj(sx.S("x"), sInt(1)), sObj(sx.S("x"), sInt(2)), sObj(sx.S("x"), scalar())))
 	add("j", sStr(nested))
 	add("jb", sStr(base64.StdEncoding.EncodeToString([]byte(nested))))
+	add("H", sObj(sx.S("Content-Type"), sStr("hello"), sx.S("X-Id"), sInt(5), sx.S("ContentType"), sStr("hello"), sx.S("XId"), sInt(5)))
 	return sx.L(append([]sx.Sx{sx.A("o")}, pairs(fields)...)...)
 }
 
@@ -695,10 +709,12 @@ func genKflEval(r *Rand, tier string, emit func(sx.Sx)) {
 			return sArr(out...)
 		}
 		arrays := [][2]sx.Sx{{ints(2, 3), ints(1, 2)}, {ints(5, 5), ints(5, 5)}, {ints(1, 2, 3), ints(3, 4)}, {ints(4, 6), ints(1, 2)},
-			{ints(2), ints(2)}, {ints(1, 2), ints(2, 3)}, {ints(7, 8), ints(7)}}
+			{ints(2), ints(2)}, {ints(1, 2), ints(2, 3)}, {ints(7, 8), ints(7)},
+			// document order is part of an array's value: unsorted arrays, the same elements in another order
+			{ints(3, 1, 2), ints(3, 1, 2)}, {ints(2, 1), ints(1, 2)}, {ints(10, 9), ints(10, 9)}, {ints(3, 1, 2), ints(1, 2, 3)}}
 		for _, ab := range arrays {
 			for _, op := range []string{"==", "!=", ">=", "<=", ">", "<"} {
-				for _, order := range [][2]string{{"c.*", "e.*"}, {"e.*", "c.*"}} {
+				for _, order := range [][2]string{{"c.*", "e.*"}, {"e.*", "c.*"}, {"c", "e"}, {"c.*", "e"}, {"c", "e.*"}} {
 					l, rr := ident(order[0]), ident(order[1])
 					var q node
 					if op == "==" || op == "!=" {
@@ -758,6 +774,24 @@ func genKflFuzz(r *Rand, tier string, emit func(sx.Sx)) {
 		"http and redis and http2", "a == 1e999", "a == 0x10", "a == 1_000", "a == .5.5", "\x00", "\xff\xfe", "日本語 == \"日本語\"", "a == \"\\\"\""}
 	for _, f := range fixed {
 		emitQ(f)
+	}
+	// fields that are neither JSON nor XML, with brackets of every kind in every order, under the
+	// helpers that try to read them as documents
+	garbage := []string{":) (", "x)(", "cb(", "cb)", "()", ")(", "](", "}{", "][", "/**/ cb({\"a\":1});", "cb({\"a\":1})", "((((", "))))", "{\"a\":", "[1,2", "\"", "'", "<", ">", "><",
+		"1) first (of two", "{}{}", "[][]", "null", "true", "12", "-", "e", "\\", "\u0000", " ", "\t\n"}
+	docQueries := []string{`g.json().a == 1`, `g.json()..a == 1`, `g.json()["a"] == 1`, `g.json()[0] == 1`, `g.xml().a == 1`, `g.xml()..a == 1`,
+		`redact("g.json().a")`, `redact("g.xml().a")`, `g.json().a.startsWith("x")`, `g.json().a or g.xml().a`}
+	for _, gs := range garbage {
+		for _, enc := range []bool{false, true} {
+			v, _ := strconvUnquote(gs)
+			if enc {
+				v = base64.StdEncoding.EncodeToString([]byte(v))
+			}
+			rec, _ := json.Marshal(map[string]interface{}{"g": v, "a": 1})
+			for _, q := range docQueries {
+				emit(sx.L(sx.S(q), sx.S(string(rec))))
+			}
+		}
 	}
 	// XML documents of every shape under every xml() query and redaction: with and without a
 	// declaration, on one line or several, plain and base64, with attributes, CDATA, namespaces, empty
